@@ -55,7 +55,7 @@ def hj_case(draw, tier):
         c["lkey"] = lk[0] if nk == 1 else tuple(lk)
         c["rkey"] = rk[0] if nk == 1 else tuple(rk)
     if fn in ("hashleftjoin", "hashrightjoin", "hashlookupjoin"):
-        c["missing"] = draw(st.sampled_from([None, None, "M"]))
+        c["missing"] = draw(st.sampled_from([None, None, "M", 0, ""]))
     if fn in ("hashjoin", "hashleftjoin", "hashrightjoin"):
         c["cache"] = draw(st.booleans())
     if fn != "hashantijoin" and draw(st.integers(0, 3)) == 0:
